@@ -62,6 +62,8 @@ def step_shape(P, fn, callee, cursor_field):
                         v = ('fval', v[1])
                     elif isinstance(v, tuple) and v[0] == 'ref':
                         v = v[1]
+                    elif isinstance(v, tuple) and v[0] == 'closenv':
+                        pass
                     else:
                         v = ('deref', v)
                 elif k == 'downcast':
@@ -69,6 +71,8 @@ def step_shape(P, fn, callee, cursor_field):
                 elif k == 'field':
                     if isinstance(v, tuple) and v[0] == 'variant' and v[1] == ('selfval',):
                         v = ('selffield', pr['i'])
+                    elif isinstance(v, tuple) and v[0] == 'closenv':
+                        v = v[1][pr['i']]
                     else:
                         v = ('proj', v, pr['i'])
                 else:
@@ -124,6 +128,22 @@ def step_shape(P, fn, callee, cursor_field):
         elif k == 'call':
             name = mir.callee(t) or ''
             args = [operand(a) for a in t['args']]
+            if name.endswith('Option::<T>::map') and len(args) == 2 and isinstance(args[1], tuple) and args[1][0] == 'agg' and (args[1][1] or '').startswith(fn + '::{closure'):
+                # x.map(|payload| ..): None stays None; for Some the closure body runs on the payload (its stores are stores of this path)
+                X = args[0]
+                e0 = dict(env)
+                e0[t['dest']['local']] = ('agg', 'std::option::Option', 0, ())
+                work.append((t['target'], e0, asm + [(('discr', X), 0)], stores))
+                cb = P.body(args[1][1])
+                res = _closure(cb, args[1][3], ('proj', ('variant', X, 1), 0)) if cb is not None else None
+                if res is None:
+                    problems.append('a closure passed to Option::map is not a straight-line body')
+                else:
+                    r, st2 = res
+                    e1 = dict(env)
+                    e1[t['dest']['local']] = ('agg', 'std::option::Option', 1, (r,))
+                    work.append((t['target'], e1, asm + [(('discr', X), 1)], stores + st2))
+                continue
             env[t['dest']['local']] = ('call', name, tuple(args))
             if t['target'] is not None and t['target'] >= 0:
                 work.append((t['target'], env, asm, stores))
@@ -198,6 +218,56 @@ def step_shape(P, fn, callee, cursor_field):
     if not seen_guard:
         problems.append('no path takes a step under the guard')
     return sorted(set(problems)), npaths
+
+
+def _closure(cb, caps, payload):
+    """straight-line closure body: (return value, stores) with _1 = the captures, _2 = the payload"""
+    env = {1: ('closenv', tuple(caps)), 2: payload}
+    stores = []
+    bb = 0
+    for _ in range(20):
+        bl = cb['blocks'][bb]
+        for st in bl['stmts']:
+            if st['k'] != 'assign':
+                continue
+            rv = st['rv']
+
+            def place(pl):
+                v = env.get(pl['local'])
+                for pr in pl['proj']:
+                    if pr['k'] == 'deref':
+                        if isinstance(v, tuple) and v[0] == 'fref':
+                            v = ('fval', v[1])
+                        elif isinstance(v, tuple) and v[0] == 'ref':
+                            v = v[1]
+                    elif pr['k'] == 'field':
+                        v = v[1][pr['i']] if isinstance(v, tuple) and v[0] == 'closenv' else ('proj', v, pr['i'])
+                    else:
+                        return ('?',)
+                return v
+            if rv['k'] == 'use' and rv['op']['k'] in ('copy', 'move'):
+                val = place(rv['op']['place'])
+            elif rv['k'] == 'ref':
+                val = ('ref', place(rv['place']))
+            else:
+                return None
+            tp = st['place']
+            if tp['proj']:
+                tgt = env.get(tp['local'])
+                if len(tp['proj']) == 1 and tp['proj'][0]['k'] == 'deref' and isinstance(tgt, tuple) and tgt[0] == 'fref':
+                    stores.append((tgt[1], val))
+                else:
+                    return None
+            else:
+                env[tp['local']] = val
+        t = bl['term']
+        if t['k'] == 'goto':
+            bb = t['target']
+            continue
+        if t['k'] == 'return':
+            return env.get(0), stores
+        return None
+    return None
 
 
 def guarded_alternatives(P, fn, test_suffix):
